@@ -11,23 +11,25 @@ Proof. exact id_value_cases. Qed.
 Print Assumptions C16_supplied_or_fresh.
 
 (* Every response path (proxied, plugin 401 / 413, limiter 429, no-backend 503) carries the request-ID header with one value v,
-   for every configuration, chain, phase of the balancer and request; the hypotheses name the header as one no configured
-   headers-plugin overwrites. *)
+   for every configuration, chain (the tutorial request-id plugin included, wherever it is listed), phase of the balancer and
+   request; the hypotheses name the header as one no configured `headers` plugin overwrites. *)
 Theorem C16_present_on_every_path :
   forall c phase q, c_rid c = true -> c_rid_hdr c <> c_tr_hdr c ->
-    ~ In (c_rid_hdr c) (chain_reqset_keys (c_chain c)) -> ~ In (c_rid_hdr c) (chain_set_keys (c_chain c)) ->
+    ~ In (c_rid_hdr c) (hdr_reqset_keys (c_chain c)) -> ~ In (c_rid_hdr c) (hdr_set_keys (c_chain c)) ->
     hvalues (c_rid_hdr c) (outcome_pre (forward c phase q)) = [id_value (hget (c_rid_hdr c) (parsed q)) GEN_REQ].
 Proof.
-  intros c phase q Hon Hne H1 H2. rewrite forward_pre by assumption. apply (id_mw_rid c (parsed q) Hon Hne).
+  intros c phase q Hon Hne H1 H2. destruct (id_mw_rid c (parsed q) Hon Hne) as [A B].
+  apply (forward_id c phase q _ _ A B); [apply id_value_nonempty; discriminate|exact H1|exact H2].
 Qed.
 Print Assumptions C16_present_on_every_path.
 
 Theorem C16_trace_present_on_every_path :
   forall c phase q, c_tr c = true -> c_rid_hdr c <> c_tr_hdr c ->
-    ~ In (c_tr_hdr c) (chain_reqset_keys (c_chain c)) -> ~ In (c_tr_hdr c) (chain_set_keys (c_chain c)) ->
+    ~ In (c_tr_hdr c) (hdr_reqset_keys (c_chain c)) -> ~ In (c_tr_hdr c) (hdr_set_keys (c_chain c)) ->
     hvalues (c_tr_hdr c) (outcome_pre (forward c phase q)) = [id_value (hget (c_tr_hdr c) (parsed q)) GEN_TRACE].
 Proof.
-  intros c phase q Hon Hne H1 H2. rewrite forward_pre by assumption. apply (id_mw_tr c (parsed q) Hon Hne).
+  intros c phase q Hon Hne H1 H2. destruct (id_mw_tr c (parsed q) Hon Hne) as [A B].
+  apply (forward_id c phase q _ _ A B); [apply id_value_nonempty; discriminate|exact H1|exact H2].
 Qed.
 Print Assumptions C16_trace_present_on_every_path.
 
@@ -43,17 +45,20 @@ Print Assumptions C16_survives_the_response.
    declared hop-by-hop by the client (a header listed in Connection is, correctly, not forwarded at all). *)
 Theorem C16_backend_sees_what_client_gets :
   forall c q b pre, forward c 0 q = Forwarded b pre -> c_rid c = true -> c_rid_hdr c <> c_tr_hdr c ->
-    ~ In (c_rid_hdr c) (chain_reqset_keys (c_chain c)) -> ~ In (c_rid_hdr c) (chain_set_keys (c_chain c)) ->
+    ~ In (c_rid_hdr c) (hdr_reqset_keys (c_chain c)) -> ~ In (c_rid_hdr c) (hdr_set_keys (c_chain c)) ->
     ~ In s_connection (chain_reqset_keys (c_chain c)) -> s_connection <> c_tr_hdr c ->
     ~ In (c_rid_hdr c) (conn_listed_vals (map trim_ows (hvalues s_connection (q_hdrs q))) ++ hop_headers) -> c_rid_hdr c <> s_xff ->
-    hvalues (c_rid_hdr c) (bv_hdrs b) = hvalues (c_rid_hdr c) pre.
+    hvalues (c_rid_hdr c) (bv_hdrs b) = hvalues (c_rid_hdr c) pre
+    /\ hvalues (c_rid_hdr c) pre = [id_value (hget (c_rid_hdr c) (parsed q)) GEN_REQ].
 Proof.
   intros c q b pre Hf Hon Hne H1 H2 Hc Ht Hn Hx.
   assert (Hr : s_connection <> c_rid_hdr c).
   { intros E. apply Hn. apply in_or_app. right. rewrite <- E. unfold hop_headers. cbn. tauto. }
-  rewrite (forward_backend c 0 q b pre _ Hf H1 H2 Hc Hr Ht Hn Hx).
-  pose proof (forward_pre c 0 q (c_rid_hdr c) H1 H2) as P. rewrite Hf in P. cbn [outcome_pre] in P. rewrite P.
-  destruct (id_mw_rid c (parsed q) Hon Hne) as [A B]. rewrite A, B. reflexivity.
+  destruct (id_mw_rid c (parsed q) Hon Hne) as [A B].
+  assert (Hg : GEN_REQ <> []) by discriminate.
+  destruct (forward_id c 0 q _ _ A B (id_value_nonempty _ _ Hg) H1 H2) as [P Q].
+  rewrite Hf in P. cbn [outcome_pre] in P. rewrite P. split; [|reflexivity].
+  apply (Q b pre Hf Hc Hr Ht Hn Hx).
 Qed.
 Print Assumptions C16_backend_sees_what_client_gets.
 
@@ -90,5 +95,19 @@ Example C16_nonvacuous :
   match forward c 0 q with
   | Forwarded b pre => hvalues [88;45;82] (bv_hdrs b) = [[97;98;99]] /\ hvalues [88;45;82] pre = [[97;98;99]] /\ hvalues [88;45;84] pre = [GEN_TRACE]
   | _ => False
+  end.
+Proof. vm_compute. repeat split; reflexivity. Qed.
+
+(* the same with the tutorial request-id plugin in the chain and X-Request-Id as the configured header: the plugin keeps the ID
+   the middleware chose, so the backend and the client still see one and the same value *)
+Example C16_nonvacuous_with_plugin :
+  let c := mkWCfg true s_xrid false [88;45;84] [WLogging; WReqId; WAuth [107]] [] [49] in
+  let q := mkWReq [71;69;84] [47] [] [104] [(s_xrid, [32;97;98;99]); (s_api_key, [107])] 0 0 in
+  let q' := mkWReq [71;69;84] [47] [] [104] [(s_api_key, [107])] 0 0 in
+  match forward c 0 q, forward c 0 q' with
+  | Forwarded b pre, Forwarded b' pre' =>
+      hvalues s_xrid (bv_hdrs b) = [[97;98;99]] /\ hvalues s_xrid pre = [[97;98;99]]
+      /\ hvalues s_xrid (bv_hdrs b') = [GEN_REQ] /\ hvalues s_xrid pre' = [GEN_REQ]
+  | _, _ => False
   end.
 Proof. vm_compute. repeat split; reflexivity. Qed.
